@@ -187,6 +187,22 @@ def check_weighted(h: Harness):
             h.agree("RandomSource.choice_weighted", ["choice_weighted", den, ns, [d]], v, nontrivial=len(ns) > 1)
             h.holds("RandomSource.choice_weighted", "zero-weight-option-returned", ["prop_weighted", ns, v],
                     f"choice_weighted(weights={weights}) returned option {v} for draw {d}", [den, ns, d])
+    # decimal (non-dyadic) float weights, zero weights LAST: the draws at the very top of the range (level B only: float
+    # summation is not modelled, the verdict "never an option of zero weight" needs no arithmetic)
+    for ws in ([0.7, 0.2, 0.1, 0.0], [0.1] * 10 + [0.0], [0.3, 0.3, 0.4, 0.0, 0.0], [0.6, 0.3, 0.1, 0.0], [0.2, 0.2, 0.2, 0.2, 0.2, 0.0], [0.1, 0.2, 0.7]):
+        ns = [int(round(w * 10)) for w in ws]
+        top = int(sum(ws) * 100000)
+        for d in sorted({0, 1, top // 2, top - 2, top - 1, top, top + 1, 99998, 99999, 100000}):
+            if d < 0:
+                continue
+            s_ = ScriptedSource([d])
+            v = call(h, "cw", lambda: s_.choice_weighted(list(range(len(ws))), list(ws)))
+            h.count("choice_weighted:decimal-weights")
+            if isinstance(v, str):
+                h.fail("RandomSource.choice_weighted", "raises", f"choice_weighted(weights={ws}) raised {v} (draw {d})", [ws, d])
+                continue
+            h.holds("RandomSource.choice_weighted", "zero-weight-option-returned", ["prop_weighted", ns, v],
+                    f"choice_weighted(weights={ws}) returned option {v} (weight {ws[v]}) for the underlying draw {d}", [ws, d])
     # proportionality, exhaustively over ALL draws, for tiny totals (denominator 2^17 keeps floats exact)
     den = 131072
     small = [[0, 3, 0, 5], [4, 0, 0], [0, 0, 2], [1, 1, 1, 1], [7], [0, 9, 0]]
@@ -264,7 +280,8 @@ def check_deciders(h: Harness):
                 f"BaseDecider.random_int() [default bounds] returned {v} (script {sc})", [lo, hi, sc])
     # dynamic SGE decider
     # (creation draws genes in 0..1024, mutation rewrites a gene with a value in 0..sys.maxsize)
-    genes = [0, 1, 2, 3, 7, 128, 1023, 1024, 1025, 4096, 10**9 + 7, sys.maxsize - 1, sys.maxsize]
+    # ... and a genotype written by hand or imported may hold any integer, negative ones included
+    genes = [0, 1, 2, 3, 7, 128, 1023, 1024, 1025, 4096, 10**9 + 7, sys.maxsize - 1, sys.maxsize, -1, -40, -1025, -sys.maxsize]
     # the source handed to metahandlers during a dynamic-SGE mapping: bounded floats and the derived primitives
     for gene in genes:
         for lo, hi in [(0.0, 1.0), (-2.5, 2.5), (9.0, 10.0), (0.0, 0.0), (-1e6, 1e6)]:
